@@ -144,6 +144,10 @@ def parseOpNamed (name : String) (l : Line) : Option Op :=
   | "emplace_alias" => do some (.insertA 2 (← pos) (← i))
   | "insert_fill_alias" => do some (.insertFillA (← pos) (← n) (← i))
   | "resize_val_alias" => do some (.resizeValA (← n) (← i))
+  | "try_push_alias" => i.map (Op.tryPushA 0)
+  | "try_emplace_alias" => i.map (Op.tryPushA 2)
+  | "unchecked_push_alias" => i.map (Op.uncheckedA 0)
+  | "unchecked_emplace_alias" => i.map (Op.uncheckedA 2)
   | _ => none
 
 def parseOp (l : Line) : Option Op := parseOpNamed l.op l
